@@ -255,10 +255,10 @@ RX_COMPLETE = ["complete_free", "complete_nofree", "complete_occ_full", "complet
 RX_FIRST = ["first_empty", "first_empty_nobuf", "first_occ", "first_occ_ext", "first_s2_occ_slot", "first_s2_empty_slot"]
 
 
-def rx_members(names, cost=20, **kw):
+def rx_members(names, cost=20, whole_family=True, **kw):
     return [H(f"rx::{n}", bounds=RX_BOUNDS + ("; type field >= 0x600 (extension walker replaced by an assert-unreachable stub)" if n.startswith(("complete", "first")) else ""),
               unwind=8, stubs=STUB_HDR + ([STUB_WALKER] if n.startswith(("complete", "first")) else []), cost=cost, mem_gb=4, timeout=600,
-              covers="any", family=n.split("_")[0], **kw) for n in names]
+              covers="any", family=(n.split("_")[0] if whole_family else None), **kw) for n in names]
 
 
 PROPS["C03"] = dict(
@@ -371,7 +371,7 @@ PROPS["C12"] = dict(
                H("c12::check_value", bounds="catalogue check string 123456789", unwind=5, cost=5),
                H("c12::sender_wiring", bounds="PDU <= 12, buffer <= 24, any label / sender state; RecCrc records the call", unwind=8, cost=30),
                H("c06::encap_frag_bytes", bounds=BYTE_TIER + " (CRC trailer = context CRC, big endian, last four bytes)", cost=10, timeout=600),
-               T("c12::twin_byte_step", cost=2)] + rx_members(["end_match", "end_match_ext"]),
+               T("c12::twin_byte_step", cost=2)] + rx_members(["end_match", "end_match_ext"], whole_family=False),
     functions=["dvb_gse_rust::crc::DefaultCrc::calculate_crc32", "dvb_gse_rust::crc::crc32"] + ENCAP_FNS[:2] + DECAP_FNS[:1],
     assumptions=COMMON_ASSUME + ["spec.rs::crc_bit_step is the reference (eight explicit shift/xor steps); anchored by the catalogue check value 0x0376E6E7"],
     outside=["PDUs longer than 16 bytes in the differential member (covered by the induction argument)"],
